@@ -1,4 +1,22 @@
-(* Wire interface of Model/ConstRw.v (dispatch numbers 110-119). *)
-From DD Require Import Base.Wire Model.Rewrites Run.RwWire.
+(* Wire interface of Model/ConstRw.v (dispatch numbers 110-119).  The models need no oracle: the argument is the node,
+   optionally followed by (ignored) tables in the layout of Run/RwWire.v. *)
+From DD Require Import Base.Wire Model.Rewrites Model.ConstRw Run.RwWire.
 Local Open Scope list_scope.
-Definition dispatch_more2 (f : Z) (w : wire) : wire := w_err.
+Definition dispatch_more2 (f : Z) (w : wire) : wire :=
+  match w with
+  | WL (t :: _) =>
+      let e := r_sexp t in
+      match f with
+      | 110 => w_olist (rw_bv_concat_zext e)
+      | 111 => w_olist (rw_bv_simp_consts e)
+      | 112 => w_olist (rw_bv_to_bool e)
+      | 113 => w_olist (rw_bv_zext_pred e)
+      | 114 => w_olist (rw_arith_simp_const e)
+      | 115 => w_olist (rw_arith_split_nary e)
+      | 116 => w_olist (rw_seq_nth_unit e)
+      | 117 => w_olist (rw_str_indexof e)
+      | 118 => w_olist (rw_str_replace_all e)
+      | _ => w_err
+      end
+  | _ => w_err
+  end%Z.
